@@ -14,7 +14,10 @@ for _vo in ("theories/Lex/Scanner.vo", "theories/Lex/LexSpec.vo"):
     if _vo not in common.MODEL_VOS:
         common.MODEL_VOS = list(common.MODEL_VOS) + [_vo]
 
-THEOREMS = []
+THEOREMS = ["C10_scan_meets_spec", "C10_lex_total", "C10_lexemes_partition", "C10_tokens_of_lexemes", "C10_column_exact",
+            "C10_error_at_first_unmatchable", "C10_keyword_unless_ident_follows", "C10_ident_int_maximal",
+            "C10_string_merge_lines", "C10_string_merge_split", "C10_string_merge_skip", "C10_lex_pure",
+            "C10_wordchar_irrelevant"]
 MODELS = ("lex",)
 RULE = ("exhaustive: every string of length <= 4 (quick) / <= 5 (thorough) over a 40-symbol alphabet covering every "
         "character class the rules distinguish, each as a fresh line followed by a flush line `;`, and (length <= 4) also "
@@ -23,7 +26,20 @@ RULE = ("exhaustive: every string of length <= 4 (quick) / <= 5 (thorough) over 
         "sequences with literals pending across lines.  A case is non-trivial when the real lexer returns at least one "
         "token or an error beyond column 1; distinct = distinct case inputs (all exhaustive cases are distinct by "
         "construction; the recorded number hashes only the non-exhaustive generators and a sample of the exhaustive one)")
-NOTES = []
+NOTES = ["all target theorems are proved at full strength (no _partial statements): scan_meets_spec, lexemes_partition "
+         "(+ tokens_of_lexemes, column_exact), error_at_first_unmatchable (an iff), keyword_unless_ident_follows, "
+         "ident_int_maximal, string_merge (three statements: line breaks, splitting a literal, skipped lexemes), lex_pure, "
+         "lex_total; plus wordchar_irrelevant",
+         "precondition of every theorem about lex_line: the line is valid UTF-8 (Rust cannot call Lexer::line otherwise: it "
+         "takes &str; cli.rs reads lines with BufRead::lines, which fails first)",
+         "string_merge is stated on lexeme sequences (C10_string_merge_split / _skip) plus the line-break theorem "
+         "C10_string_merge_lines; it is not stated as an equation between two source texts because a literal's neighbours "
+         "decide where lexemes end (maximal munch), which the lexeme-level statement makes explicit",
+         "Loc::new narrows line and column to u32: the model and the theorems carry the `mod 2^32` (C10_column_exact gives "
+         "the plain column for lines shorter than 4 GiB)",
+         "the lexer accepts a line containing U+000A (the newline rule of LEX_RE); the model and the enumeration include it "
+         "although cli.rs never passes one",
+         "out-of-scope observation (DESIGN 1.1): a literal still pending when the file ends is never delivered"]
 MODELLED = ("src/lex.rs LEX_RE (the regex crate's leftmost-first semantics, Unicode \\s and \\b) and Lexer::line, "
             "src/loc.rs Loc::new are modelled by hand in Lex/Scanner.v; theorems are about that model, tied to the real "
             "lexer by exhaustive short-string enumeration and random long/multi-line cases through the public "
@@ -218,7 +234,7 @@ def classify(impl, spec):
         if "@" not in x or "@" not in y:
             return "lexer-loc" if ":" in x and ":" in y else "token-count"
         if kx != ky:
-            return "token-kind"
+            return "string-literal-lost-or-spurious" if "StringLiteral" in (kx, ky) else "token-kind"
         lx, _, vx = rx.partition("=")
         ly, _, vy = ry.partition("=")
         if lx != ly:
@@ -362,26 +378,29 @@ def report(ctx, results):
     for r in results:
         if r.get("broken"):
             ctx.obligation("all three sides answered every case (%s)" % r["kind"], False, r["broken"])
-        for case, impl, spec, model in r["viol"]:
-            cls = classify(impl, spec)
-            if cls in seen:
-                ctx.fail(cls, "impl differs from specification", {"lines": case.split(), "impl": impl, "spec": spec})
-                continue
-            seen.add(cls)
-            lines = case.split()
-            small = shrink(lines, cls) if len(case) > 24 else lines
-            a, b, c = run_one(small)
-            if a is None or a == c:
-                small, a, b, c = lines, impl, model, spec
-            what = {"panic": "the real lexer panicked",
-                    "error-column": "lex error reported at a different column than the first unmatchable character",
-                    "accepted-vs-rejected": "implementation and lexical rules disagree on whether the text lexes",
-                    "string-token-column": "merged string literal is not located at the token that ended it",
-                    "string-value": "merged string literal has the wrong text (pending literal lost or duplicated)",
-                    }.get(cls, "token stream differs from the lexical rules (%s)" % cls)
-            ctx.fail(cls, "%s: lines %r: impl `%s` spec `%s`" % (what, show(small), a, c),
-                     {"lines": small, "text": show(small), "impl": a, "spec": c, "model": b, "generator": r["kind"],
-                      "unshrunk_lines": lines})
+    allv = sorted(((len(v[0]), v, r) for r in results for v in r["viol"]), key=lambda x: (x[0], x[1][0]))
+    for _, (case, impl, spec, model), r in allv:
+        cls = classify(impl, spec)
+        if cls in seen:
+            ctx.fail(cls, "impl differs from specification", {"lines": case.split(), "impl": impl, "spec": spec})
+            continue
+        seen.add(cls)
+        lines = case.split()
+        small = shrink(lines, cls) if len(case) > 24 else lines
+        a, b, c = run_one(small)
+        if a is None or a == c:
+            small, a, b, c = lines, impl, model, spec
+        what = {"panic": "the real lexer panicked",
+                "error-column": "lex error reported at a different column than the first unmatchable character",
+                "accepted-vs-rejected": "implementation and lexical rules disagree on whether the text lexes",
+                "string-token-column": "merged string literal is not located at the token that ended it",
+                "string-value": "merged string literal has the wrong text (pending literal lost or duplicated)",
+                "string-literal-lost-or-spurious": "a string-literal token is missing or spurious (pending literal lost)",
+                }.get(cls, "token stream differs from the lexical rules (%s)" % cls)
+        ctx.fail(cls, "%s: lines %r: impl `%s` spec `%s`" % (what, show(small), a, c),
+                 {"lines": small, "text": show(small), "impl": a, "spec": c, "model": b, "generator": r["kind"],
+                  "unshrunk_lines": lines})
+    for r in results:
         for case, impl, model in r["disag"]:
             ctx.fail("model-differs", "model output differs from the implementation (and the specification agrees with "
                      "the implementation): lines %r: impl `%s` model `%s`" % (show(case.split()), impl, model),
